@@ -252,6 +252,7 @@ def check(run):
     # ---- scenarios
     maxlen = 4 if thorough else 3
     nfail = 0
+    grid_cache, bounded_notes = {}, set()
     for n in range(0, 4):
         alphabet = [(k, i) for i in range(n) for k in ('valid', 'bad', 'otherblock')] + [('unknown', None)]
         for L in range(0, maxlen + 1):
@@ -295,9 +296,33 @@ def check(run):
                         spec = it.int_cond(ast.Gt(), S * Poly.const(3), T * Poly.const(2))
                         dec = it.decided.get(spec.key)
                         if dec is None:
-                            ok = False
+                            # the path compared the weights by a formula the polynomial normal form does not identify with 3*signed > 2*total
+                            # (an integer division, a pre-computed quorum, ...): decided instead on every weight vector of a small grid -
+                            # the formula must agree with the specification at each point (bounded, recorded as such)
+                            key_ = (n, tuple(seq))
+                            if key_ not in grid_cache:
+                                grid = itertools.product((0, 1, 2, 3, 4, 6, 7) if n <= 2 else (1, 2, 3, 5), repeat=n)
+                                bad_pt = None
+                                npts = 0
+                                for ws_ in grid:
+                                    npts += 1
+                                    s_ = sum(ws_[i] for i in verdict)
+                                    want_ = 3 * s_ > 2 * sum(ws_)
+                                    kinds_ = {k for (k, _, _), _ in scenario(prog, n, seq, ws_)}
+                                    if kinds_ != ({'accept'} if want_ else {'raise'}):
+                                        bad_pt = (ws_, sorted(kinds_), want_)
+                                        break
+                                grid_cache[key_] = (bad_pt, npts)
+                            bad_pt, npts = grid_cache[key_]
                             conds = [d for d, _ in it.pathcond if '>= 0' in d]
-                            why = f'signed(distinct) {S}, total {T}: the path decided {conds or "no weight comparison"}; the specification condition is {"" if spec.pol else "not "}({spec.desc})  [3*signed > 2*total]'
+                            if bad_pt is None:
+                                ok = True
+                                why = f'signed(distinct) {S}, total {T}: the path decides {conds}; agrees with 3*signed > 2*total on all {npts} weight vectors of the grid (bounded)'
+                                bounded_notes.add(str(conds)[:120])
+                            else:
+                                ok = False
+                                why = (f'signed(distinct) {S}, total {T}: the path decided {conds or "no weight comparison"}; with weights {bad_pt[0]} the set is {bad_pt[1]} '
+                                       f'but 3*signed > 2*total is {bad_pt[2]}')
                         else:
                             holds = dec if spec.pol else not dec
                             ok = (kind == 'accept') == holds
@@ -308,6 +333,8 @@ def check(run):
                         nfail += 1
                         if nfail <= 6:
                             run.fail(rule, 'check_block_signatures[duplicate signer]' if dup else 'check_block_signatures[threshold]', f'{tag}: {why}', w, witness=dict(n=n, seq=[list(map(str, s)) for s in seq], path=desc))
+    for note in sorted(bounded_notes):
+        run.info(f'threshold written as {note}: not identified symbolically with 3*signed > 2*total, decided on a grid of weight vectors')
     spellings_and_replay(run, prog, w)
     # concrete boundary cross-check of the threshold (guards against an equivalent-but-unrecognised formula being misjudged and vice versa)
     for weights, seq, want in (((1, 1, 1), (('valid', 0), ('valid', 1)), False), ((1, 1, 1), (('valid', 0), ('valid', 1), ('valid', 2)), True),
